@@ -214,15 +214,18 @@ theorem iconv_encode_loop_terminates (step : Step) (n need fuel : Nat) (hne : n 
   exact encodeLoop_terminates step n need hb fuel n (by omega) (by omega) (by omega)
 
 /-- **(c) the result is exactly what iconv produced**: against an iconv that answers E2BIG below `need` bytes and otherwise
-    converts the whole input into `produced`, decoding returns the wide characters of `produced`, encoding returns `produced` -/
+    converts the whole input into `produced` (wide characters within U+0000..U+10FFFF — glibc's UTF-8 → WCHAR_T does not
+    promise that, and then `outbuf[:n]` raises ValueError: `iconv_wchar_out_of_range`), decoding returns the wide characters of
+    `produced`, encoding returns `produced` -/
 theorem iconv_loop_returns_produced (step : Step) (input : List UInt8) (produced : List UInt8) (need k fuel : Nat)
-    (hne : input ≠ []) (h : ConvertsTo step input.length produced need) (h4 : produced.length = 4 * k) (hfuel : need < fuel) :
+    (hne : input ≠ []) (h : ConvertsTo step input.length produced need) (h4 : produced.length = 4 * k)
+    (hvalid : (wchars produced).any (· > 0x10FFFF) = false) (hfuel : need < fuel) :
     (decodeDl step input fuel).1 = .ok (wchars produced) := by
   unfold decodeDl
   have : input.isEmpty = false := by cases input <;> simp_all
   simp only [this, Bool.false_eq_true, if_false]
   have hl : 1 ≤ input.length := by cases input <;> simp_all
-  exact decodeLoop_returns_produced step input produced need k h h4 fuel input.length hl (by omega) (by omega)
+  exact decodeLoop_returns_produced step input produced need k h h4 hvalid fuel input.length hl (by omega) (by omega)
 
 theorem iconv_encode_loop_returns_produced (step : Step) (n : Nat) (produced : List UInt8) (need fuel : Nat)
     (hne : n ≠ 0) (h : ConvertsTo step (4 * n) produced need) (hfuel : need < fuel) :
@@ -254,6 +257,14 @@ theorem iconv_loop_error_span (step : Step) (input : List UInt8) (n fuel s e : N
     · cases h
     · have := encodeLoop_error_span step n hc fuel n s e h
       omega
+
+/-- the binding is NOT total as a general API: an iconv that hands back a wide character above U+10FFFF (glibc does for the
+    UTF-8 bytes F5 8F 9E 8D, target WCHAR_T) makes `outbuf[:n]` raise ValueError instead of a Unicode error.  None of the five
+    extra codecs can produce such a value (their tables are Unicode). -/
+theorem iconv_wchar_out_of_range :
+    (decodeDl (fun _ => ⟨none, ⟨.ok, 4, [0x8D, 0xF7, 0x14, 0x00]⟩, ⟨.ok, 0, []⟩⟩) [0xF5, 0x8F, 0x9E, 0x8D] 5).1.finished = true ∧
+    (match (decodeDl (fun _ => ⟨none, ⟨.ok, 4, [0x8D, 0xF7, 0x14, 0x00]⟩, ⟨.ok, 0, []⟩⟩) [0xF5, 0x8F, 0x9E, 0x8D] 5).1 with
+      | .valueError => true | _ => false) = true := by decide +kernel
 
 /-! ## unrepresentable-characters -/
 
